@@ -40,14 +40,14 @@ setup_worker = common.setup_worker
 def cases(tier, seed):
   q = tier == 'quick'
   out = []
-  for i in range(16 if q else 160):
+  for i in range(16 if q else 800):
     out.append({'kind': 'cfm', 'i': i, 'seed': seed, 'n': 40 if q else 120})
-  for i in range(16 if q else 160):
+  for i in range(16 if q else 800):
     out.append({'kind': 'minit', 'i': i, 'seed': seed, 'n': 32})
-  for i in range(16 if q else 160):
+  for i in range(16 if q else 800):
     out.append({'kind': 'cinit', 'i': i, 'seed': seed, 'n': 27})
   for ei, name in enumerate(E.ALL):
-    for k in range(4 if q else 16):
+    for k in range(4 if q else 64):
       out.append({'kind': 'fit', 'est': name, 'i': k, 'seed': seed})
   return _with_repotests(out, tier)
 
